@@ -79,7 +79,7 @@ func c03Tier(tier string) (maxLen, exh, random int) {
 	if tier == "thorough" {
 		return 4, c03ExhCount(4) * 3, 1000000
 	}
-	return 3, c03ExhCount(3) * 3, 20000
+	return 3, c03ExhCount(3) * 3, 200000
 }
 
 // c03Growth applies the two extra growth operations (Transfer-into, Marshal-into).
